@@ -76,6 +76,8 @@ def conc_job(jid, fam, front, progs, explore, draw=NEVER, prefill=(), mkdirs_ext
         st["adv"] = adv
     if solo:
         st["solo"] = solo
+    if explore and explore.get("kind") == "solo":
+        st["allpoints"] = True      # a peer can be frozen between ANY two of its calls
     stages.append(st)
     cfg = {"roots": roots, "front": name, "cap": (cache.get("cap") if name in ("plain", "sharded") else cache.get("writer", {}).get("cap", 1000000))}
     if name.startswith("stack"):
@@ -214,7 +216,7 @@ def check_C01(work):
         jobs.append(conc_job("C01-%s-3p" % fr[0], "%s:3p" % fr[0], fr, progs, rnd(Q(60, 1500), seed() + 99)))
     mons = ["DirValid", "HandleContentOK", "Immutable"]
     st = trace_check(work, out, jobs, mons, tag="c01", conform=True)
-    design = design_runs(work, out, Q(["MCplain2q", "MCshard1"], ["MCplain2q", "MCplain2", "MCshard1", "MCshard2"]))
+    design = design_runs(work, out, Q(["MCplain2q", "MCshard1", "MCstack2"], ["MCplain2q", "MCplain2", "MCshard1", "MCshard2", "MCstack2", "MCstack3"]))
     cov = coverage_mc(st, design,
                       "schedules of 2-3 participants explored by preemption-bounded DFS / seeded random at system-call granularity; "
                       "every snapshot of every step and every returned handle judged by DirValid/HandleContentOK/Immutable",
@@ -264,7 +266,7 @@ def check_C05(work):
                                      adv=[{"at": at, "path": vpath}]))
     mons = ["NoErr", "DirValid"]
     st = trace_check(work, out, jobs, mons, tag="c05", conform=True)
-    design = design_runs(work, out, Q(["MCtouchput", "MCadv", "MCshard1"], ["MCtouchput", "MCadv", "MCplain2", "MCclean", "MCshard2"]))
+    design = design_runs(work, out, Q(["MCtouchput", "MCadv", "MCshard1", "MCstack3"], ["MCtouchput", "MCadv", "MCplain2", "MCclean", "MCshard2", "MCstack2", "MCstack3"]))
     cov = coverage_mc(st, design,
                       "capacity-1 caches (every write maintains), missing directories, adversarial deletions of published files at each scheduler step; "
                       "every API return judged by NoErr", dict(jobs=len(jobs), monitors=mons))
@@ -477,7 +479,7 @@ def check_C17(work):
             dots = [(".appdata", 2000.0, False), (".appdir", 0, True)]
             if k % 2 == 0:
                 dots.append((".newer", 1.0, False))
-            temps = [("debris%d" % i, a, False) for i, a in enumerate(ages)] + [("nested", 4000, True)]
+            temps = [("debris%d" % i, a, False) for i, a in enumerate(ages)] + [("nested", 4000, True), ("future", -7200, False)]
             world = population_ops("W", files, 1, dots=dots, temps=temps)
             prog = [op("set", "znew%d" % k, "new"), op("put", "zput%d" % k, "new2")]
             jobs.append(seq_job("C17-plain-%d" % k, "plain", plain("W", cap), prog, world=world, draw=ALWAYS))
@@ -622,11 +624,11 @@ def check_C02(work):
     return finish("C02", out, t0, "fault_enumeration", cov, BASE_ASSUME + ["process crash (SIGKILL), not power loss"])
 
 
-ERRNOS_Q = {"open": ["EIO", "EMFILE"], "write": ["ENOSPC"], "copy": ["EIO"], "fsync": ["EIO"], "rename": ["EIO"], "link": ["EIO", "EACCES"],
+ERRNOS_Q = {"open": ["EIO", "EMFILE"], "write": ["ENOSPC"], "copy": ["EIO"], "fsync": ["EIO"], "rename": ["EIO", "ESTALE", "ENOENT"], "link": ["EIO", "EACCES"],
             "unlink": ["EIO"], "chmod": ["EACCES"], "utimens": ["EIO"], "getdents": ["EIO"], "stat": ["EIO", "ESTALE"], "close": ["EIO"],
             "mkdir": ["EACCES"], "read": ["EIO"], "*": []}
 ERRNOS_T = {"open": ["EIO", "EACCES", "EMFILE", "ENOSPC", "ESTALE"], "write": ["EIO", "ENOSPC"], "copy": ["EIO", "ENOSPC"], "fsync": ["EIO"],
-            "rename": ["EIO", "EACCES", "ESTALE"], "link": ["EIO", "EACCES", "ESTALE", "EMFILE"], "unlink": ["EIO", "EACCES", "ESTALE"],
+            "rename": ["EIO", "EACCES", "ESTALE", "ENOENT"], "link": ["EIO", "EACCES", "ESTALE", "EMFILE", "ENOENT"], "unlink": ["EIO", "EACCES", "ESTALE"],
             "chmod": ["EIO", "EACCES", "ESTALE"], "utimens": ["EIO", "EACCES", "ESTALE"], "getdents": ["EIO", "ESTALE"],
             "stat": ["EIO", "ESTALE", "EACCES"], "close": ["EIO"], "mkdir": ["EIO", "EACCES", "ENOSPC"], "read": ["EIO"], "*": []}
 
@@ -678,6 +680,22 @@ def check_C03(work):
             if TIER == "thorough" and chunks == 3:
                 j["chunk"] = 262145
             jobs.append(j)
+    # multi-step histories on tiny caches (maintenance inside every write): a put/set onto a key that its own
+    # maintenance evicts first, overwrites, promotions into a full cache -- every publish must still be flushed first
+    rng = random.Random(seed())
+    for wname, wr in (("stack", plain("W", 1)), ("stacksh", sharded("W", 2, 2))):
+        c = stack(wr, [plain("R1")], "none")
+        hist = [op("put", "a", hash="1", sec="2"), op("put", "b", hash="1", sec="2"), op("get", "a", hash="1", sec="2"),
+                op("get", "b", hash="1", sec="2"), op("put", "a", hash="1", sec="2"), op("set", "b", hash="1", sec="2"),
+                op("put_tf", "a", hash="1", sec="2"), op("ensure", "c", hash="1", sec="2"), op("put", "c", hash="1", sec="2")]
+        jobs.append(seq_job("C03-hist-%s" % wname, "%s:history" % wname, c, hist, draw=ALWAYS, shard_script=[1, 0] * 10))
+        for r in range(Q(6, 40)):
+            keys = ["a", "b", "c"]
+            hist = []
+            for i in range(rng.choice([6, 10])):
+                api = rng.choice(["put", "set", "get", "put_tf", "set_tf", "ensure", "touch"])
+                hist.append(op(api, rng.choice(keys), hash="1", sec="2"))
+            jobs.append(seq_job("C03-rnd-%s-%d" % (wname, r), "%s:history" % wname, c, hist, draw=ALWAYS, shard_script=[1, 0] * 10))
     mons = ["DurableFirst", "ReadOnlyFirst", "Immutable", "Mode0444", "DirValid"]
 
     def key_of(job, mon, ev, evs):
@@ -685,7 +703,8 @@ def check_C03(work):
         return "%s@%s@%s" % (mon, job.get("fam"), inj.get("call", "clean"))
     st = trace_check(work, out, jobs, mons, tag="c03", key_of=key_of)
     ms = st.get("mstats", {})
-    cov = coverage_mc(st, [], "every publishing API path of the stacked cache (set, put, set_temp_file, put_temp_file, ensure miss/hit/promote, get_or_update "
+    design = design_runs(work, out, ["MCstack2", "MCstack3"])
+    cov = coverage_mc(st, design, "every publishing API path of the stacked cache (set, put, set_temp_file, put_temp_file, ensure miss/hit/promote, get_or_update "
                       "replace/promote) x {plain, sharded} writer x {1, 3} chunks, complete system-call trace; then every fsync of the operation failing in turn; "
                       "per-inode write/fsync/chmod/link/rename order judged by DurableFirst (flushed after the last write, not failed, read-only, before the "
                       "name appears), Immutable, Mode0444", dict(jobs=len(jobs), monitors=mons, fsync_faults=ms.get("injected", 0)))
@@ -721,6 +740,11 @@ def stack_job(jid, pt, idx, umask=None, ro_only=False):
 
     def plant(rootdir, kind, val, tag, secondary):
         d = rootdir if kind == "plain" else "%s/.kismet_%04x" % (rootdir, 1 if secondary else 0)
+        if pt["op"] == "touch" and idx % 2 == 0 and rootdir != "W":
+            # a read-only copy written by a host whose clock is ahead: its mtime lies in the future
+            if kind != "plain":
+                world.append(op("mkdir", path="@TOP@/%s/.kismet_%04x" % (rootdir, 0 if secondary else 1)))
+            return op("mkfile", path="@TOP@/%s/%s" % (d, key), key=key, val=val, chunks=1, w=tag, mode=0o444, mt_ago=-3600.0, at_ago=-3480.0)
         if kind != "plain":
             # a populated sharded directory has its other shard directories too
             world.append(op("mkdir", path="@TOP@/%s/.kismet_%04x" % (rootdir, 0 if secondary else 1)))
@@ -753,7 +777,7 @@ def stack_job(jid, pt, idx, umask=None, ro_only=False):
             o["judge"] = pt["judge"]
     elif pt["op"] in ("set", "put", "set_tf", "put_tf"):
         o["val"] = pt["pop"]
-    sw = dict(writer=pt["writer"], w=pt["w"], rs=pt["rs"], checker=pt["checker"], op=pt["op"], judge=pt["judge"] or "accept",
+    sw = dict(writer=pt["writer"], w=pt["w"], rs=pt["rs"], checker=("none" if pt["checker"].startswith("cleared") else pt["checker"]), op=pt["op"], judge=pt["judge"] or "accept",
               pop=pt["pop"] or "A", key=key, tagw=tagw, tagr=tagr, tagp=tagp)
     cfg = {"roots": roots, "front": "ro" if ro_only else "stack", "sw": sw, "autosync": True, "checker": pt["checker"], "cap": 100000}
     stages = []
@@ -798,17 +822,18 @@ def matrix_check(work, prop, mons, checkers, frac, rule, extra_jobs=(), umasks=(
 
 
 def check_C13(work):
-    return matrix_check(work, "C13", ["StackOK", "ROUntouched", "HandleContentOK", "DirValid"], ("none",), Q(0.35, 1.0),
+    return matrix_check(work, "C13", ["StackOK", "TouchMarksFirstOnly", "ROUntouched", "HandleContentOK", "DirValid"], ("none",), Q(0.35, 1.0),
                         "the matrix of Stack.tla: write side {none, plain, sharded} x 0-2 read-only levels {plain, sharded} x each level holding {nothing, A, B} x "
                         "{get, touch, ensure, get_or_update x {Accept, Promote, Replace}, set, put, set_temp_file, put_temp_file} x populate {A, B, NotFound, error}; "
                         "result / hit kind shown to the judge / post content of the write cache judged by Stack!ObservedOK (quick: seeded 35%, thorough: all)")
 
 
 def check_C14(work):
-    return matrix_check(work, "C14", ["StackOK", "ROUntouched", "DirValid"], ("eq", "panic", "log", "none"), Q(0.12, 1.0),
+    return matrix_check(work, "C14", ["StackOK", "NoLaterLookups", "ROUntouched", "DirValid"], ("eq", "panic", "log", "none", "cleared", "cleared-panic"), Q(0.10, 1.0),
                         "the matrix of Stack.tla with checker {none, byte-equality, panicking, logging}: success iff all copies (and the populated value when "
                         "compared) are identical; the logging checker's comparison graph must span and connect the copies Stack!Expected(..).cmp; "
-                        "quick: seeded 12% plus every point whose copies disagree under the equality checkers", always=lambda pt: pt["checker"] in ("eq", "log") and disagree(pt) and hash(str(pt)) % 3 == 0)
+                        "quick: seeded 12% plus every point whose copies disagree under the equality checkers", always=lambda pt: (pt["checker"] in ("eq", "log") and disagree(pt) and hash(str(pt)) % 3 == 0) or
+                        (pt["checker"].startswith("cleared") and disagree(pt) and len([x for x in pt["rs"] if x != "none"]) >= 2 and pt["op"] in ("get", "ensure")))
 
 
 def check_C15(work):
@@ -817,7 +842,27 @@ def check_C15(work):
                         "may target a read-only root and snapshots of those roots are equal up to atime after every step (ROUntouched)")
 
 
+def c19_extra_jobs():
+    """Path-based set/put whose source file carries group/other write bits, under several umasks."""
+    jobs = []
+    n = 0
+    for fname, cache in (("plain", plain("W")), ("sharded", sharded("W", 2)), ("stack", stack(plain("W"), [], "none"))):
+        for umask in (0o000, 0o002, 0o022):
+            for srcmode in (0o666, 0o664, 0o644, 0o600):
+                prog = [op("set", "ks", hash="1", sec="2", srcmode=srcmode), op("put", "kp", hash="3", sec="4", srcmode=srcmode),
+                        op("get", "ks", hash="1", sec="2")]
+                n += 1
+                jobs.append(seq_job("C19-src-%d" % n, "%s:srcmode=%o:umask=%o" % (fname, srcmode, umask), cache, prog, umask=umask))
+    return jobs
+
+
 def check_C19(work):
+    return matrix_check(work, "C19", extra_jobs=c19_extra_jobs(), **dict(mons=["HandleModeOK", "HandleContentOK", "Mode0444", "ReadOnlyFirst", "DirValid", "StackOK"], checkers=("none", "eq", "log"), frac=Q(0.12, 0.6),
+                        rule="the matrix of Stack.tla x umask {000, 022, 077}: access mode and offset of every returned handle (fcntl(F_GETFL), lseek(SEEK_CUR) before "
+                        "reading; judge and checkers consume the files), mode of every published file; plus path-based set/put of sources with mode 0666/0664/0644/0600 under umask 000/002/022", umasks=(0o000, 0o022, 0o077)))
+
+
+def check_C19_old(work):
     return matrix_check(work, "C19", ["HandleModeOK", "HandleContentOK", "Mode0444", "ReadOnlyFirst", "DirValid", "StackOK"], ("none", "eq", "log"), Q(0.12, 0.6),
                         "the matrix of Stack.tla x umask {000, 022, 077}: access mode and offset of every returned handle (fcntl(F_GETFL), lseek(SEEK_CUR) before "
                         "reading; judge and checkers consume the files), mode of every published file", umasks=(0o000, 0o022, 0o077))
@@ -1455,8 +1500,8 @@ def check_conformance(work):
     real_edges = set()
     ops = 0
     drifts = []
-    for cfgname in (None, "TraceKismetSharded.cfg"):
-        for r in validate_traces(work, "TraceKismet", files, {"monitors": []}, tag="cf" + ("s" if cfgname else "p"), cfgname=cfgname):
+    for cfgname in (None, "TraceKismetSharded.cfg", "TraceKismetStack.cfg"):
+        for r in validate_traces(work, "TraceKismet", files, {"monitors": []}, tag="cf" + (cfgname[11:13] if cfgname else "p"), cfgname=cfgname):
             real_edges |= set(tuple(e) for e in r["cover"])
             for v in r["verdicts"]:
                 ops += v.get("ops", 0)
